@@ -2,7 +2,7 @@ import Slock.Proofs.TextNum
 /-! Helper lemmas for M-TEXT: the parser automaton on `BuildRequest` output (C14 text part). -/
 namespace Slock.Text
 
-theorem runBytes_append (s : PState) (l : Loc) (acc : Cmds) (xs ys : Bytes) :
+theorem runBytes_append (s : PState) (l : Loc) (acc : Replies) (xs ys : Bytes) :
     runBytes s l acc (xs ++ ys) =
       match runBytes s l acc xs with
       | .ok acc' s' l' => runBytes s' l' acc' ys
@@ -17,9 +17,9 @@ theorem lfBad_cr : lfBad (some 13) = false := by decide
 
 /-- a `<digits>\r\n` line in stage 1 -/
 theorem numLine_s1 (ds : Bytes) (hd : ∀ b ∈ ds, isDigit b) (pre : Bytes) (hlen : pre.length + ds.length ≤ 128)
-    (v : Int) (hv : atoi (pre ++ ds) = some v) (g : Nat) (cl : Int) (as : List Bytes) (ac : Int) (l : Loc) (acc : Cmds) (tail : Bytes) :
-    runBytes ⟨.s1, pre, g, cl, as, ac⟩ l acc (ds ++ 13 :: 10 :: tail) =
-      runBytes ⟨.s2, [], g, cl, as, v⟩ ⟨some 10, .entry⟩ acc tail := by
+    (v : Int) (hv : atoi (pre ++ ds) = some v) (g : Nat) (cl : Int) (as : List Bytes) (ac : Int) (rs : Bool) (ty : Nat) (l : Loc) (acc : Replies) (tail : Bytes) :
+    runBytes ⟨.s1, pre, g, cl, as, ac, rs, ty⟩ l acc (ds ++ 13 :: 10 :: tail) =
+      runBytes ⟨.s2, [], g, cl, as, v, rs, ty⟩ ⟨some 10, .entry⟩ acc tail := by
   induction ds generalizing pre l with
   | nil =>
     simp only [List.append_nil] at hv
@@ -33,9 +33,9 @@ theorem numLine_s1 (ds : Bytes) (hd : ∀ b ∈ ds, isDigit b) (pre : Bytes) (hl
 
 /-- a `<digits>\r\n` line in stage 3 -/
 theorem numLine_s3 (ds : Bytes) (hd : ∀ b ∈ ds, isDigit b) (pre : Bytes) (hlen : pre.length + ds.length ≤ 128)
-    (v : Int) (hv : atoi (pre ++ ds) = some v) (g : Nat) (cl : Int) (as : List Bytes) (ac : Int) (l : Loc) (acc : Cmds) (tail : Bytes) :
-    runBytes ⟨.s3, pre, g, cl, as, ac⟩ l acc (ds ++ 13 :: 10 :: tail) =
-      runBytes ⟨.s4, [], 0, v, as, ac⟩ ⟨some 10, .entry⟩ acc tail := by
+    (v : Int) (hv : atoi (pre ++ ds) = some v) (g : Nat) (cl : Int) (as : List Bytes) (ac : Int) (rs : Bool) (ty : Nat) (l : Loc) (acc : Replies) (tail : Bytes) :
+    runBytes ⟨.s3, pre, g, cl, as, ac, rs, ty⟩ l acc (ds ++ 13 :: 10 :: tail) =
+      runBytes ⟨.s4, [], 0, v, as, ac, rs, ty⟩ ⟨some 10, .entry⟩ acc tail := by
   induction ds generalizing pre l with
   | nil =>
     simp only [List.append_nil] at hv
@@ -61,9 +61,9 @@ theorem appendLast_snoc (as : List Bytes) (x : Bytes) (b : UInt8) :
 
 /-- the rest of an argument's bytes inside the block copy (binary-safe: any bytes) -/
 theorem dataRun (xs : Bytes) (hx : xs ≠ []) (x : Bytes) (as : List Bytes) (g : Nat) (hg : g ≠ 0) (cl ac : Int)
-    (p : Option UInt8) (acc : Cmds) (tail : Bytes) :
-    runBytes ⟨.s4, [], g, cl, as ++ [x], ac⟩ ⟨p, .data xs.length⟩ acc (xs ++ tail) =
-      runBytes ⟨.s4, [], cl.toNat, cl, as ++ [x ++ xs], ac⟩ ⟨some (xs.getLast hx), .scan⟩ acc tail := by
+    (rs : Bool) (ty : Nat) (p : Option UInt8) (acc : Replies) (tail : Bytes) :
+    runBytes ⟨.s4, [], g, cl, as ++ [x], ac, rs, ty⟩ ⟨p, .data xs.length⟩ acc (xs ++ tail) =
+      runBytes ⟨.s4, [], cl.toNat, cl, as ++ [x ++ xs], ac, rs, ty⟩ ⟨some (xs.getLast hx), .scan⟩ acc tail := by
   induction xs generalizing x g p with
   | nil => exact absurd rfl hx
   | cons b bs ih =>
@@ -79,10 +79,10 @@ theorem dataRun (xs : Bytes) (hx : xs ≠ []) (x : Bytes) (as : List Bytes) (g :
       simp
 
 /-- one `$<len>\r\n<arg>\r\n` item, from stage 2: the argument is appended; `k` says what the closing LF does -/
-theorem bulkRun (a : Bytes) (ha : a.length < 9223372036854775808) (as : List Bytes) (ac : Int) (l : Loc) (acc : Cmds) (tail : Bytes) :
-    runBytes ⟨.s2, [], 0, 0, as, ac⟩ l acc (bulk a ++ tail) =
-      if ((as ++ [a]).length : Int) < ac then runBytes ⟨.s2, [], 0, 0, as ++ [a], ac⟩ ⟨some 10, .entry⟩ acc tail
-      else runBytes ⟨.s0, [], 0, 0, [], 0⟩ ⟨some 10, .entry⟩ (acc ++ [as ++ [a]]) tail := by
+theorem bulkRun (a : Bytes) (ha : a.length < 9223372036854775808) (as : List Bytes) (ac : Int) (rs : Bool) (ty : Nat) (l : Loc) (acc : Replies) (tail : Bytes) :
+    runBytes ⟨.s2, [], 0, 0, as, ac, rs, ty⟩ l acc (bulk a ++ tail) =
+      if ((as ++ [a]).length : Int) < ac then runBytes ⟨.s2, [], 0, 0, as ++ [a], ac, rs, ty⟩ ⟨some 10, .entry⟩ acc tail
+      else runBytes ⟨.s0, [], 0, 0, [], 0, rs, ty⟩ ⟨some 10, .entry⟩ (acc ++ [(ty, as ++ [a])]) tail := by
   unfold bulk crlf
   simp only [List.cons_append, List.append_assoc, List.nil_append]
   rw [runBytes]
@@ -135,9 +135,9 @@ theorem bulkRun (a : Bytes) (ha : a.length < 9223372036854775808) (as : List Byt
         simp [runBytes, step, step4, scanByte, lfBad_cr, hc', hz]
 
 theorem bulksRun (rest : List Bytes) (hr : rest ≠ []) (hlen : ∀ a ∈ rest, a.length < 9223372036854775808)
-    (done : List Bytes) (l : Loc) (acc : Cmds) (tail : Bytes) :
-    runBytes ⟨.s2, [], 0, 0, done, ((done.length + rest.length : Nat) : Int)⟩ l acc (bulks rest ++ tail) =
-      runBytes ⟨.s0, [], 0, 0, [], 0⟩ ⟨some 10, .entry⟩ (acc ++ [done ++ rest]) tail := by
+    (rs : Bool) (ty : Nat) (done : List Bytes) (l : Loc) (acc : Replies) (tail : Bytes) :
+    runBytes ⟨.s2, [], 0, 0, done, ((done.length + rest.length : Nat) : Int), rs, ty⟩ l acc (bulks rest ++ tail) =
+      runBytes ⟨.s0, [], 0, 0, [], 0, rs, ty⟩ ⟨some 10, .entry⟩ (acc ++ [(ty, done ++ rest)]) tail := by
   induction rest generalizing done l with
   | nil => exact absurd rfl hr
   | cons a rest ih =>
@@ -157,16 +157,16 @@ theorem bulksRun (rest : List Bytes) (hr : rest ≠ []) (hlen : ∀ a ∈ rest, 
 
 /-- a whole request, from the initial state, followed by anything -/
 theorem buildRun (args : List Bytes) (hne : args ≠ []) (hcount : args.length < 9223372036854775808)
-    (hlen : ∀ a ∈ args, a.length < 9223372036854775808) (l : Loc) (acc : Cmds) (tail : Bytes) :
-    runBytes {} l acc (buildRequest args ++ tail) = runBytes {} ⟨some 10, .entry⟩ (acc ++ [args]) tail := by
+    (hlen : ∀ a ∈ args, a.length < 9223372036854775808) (l : Loc) (acc : Replies) (tail : Bytes) :
+    runBytes {} l acc (buildRequest args ++ tail) = runBytes {} ⟨some 10, .entry⟩ (acc ++ [(0, args)]) tail := by
   unfold buildRequest crlf
   simp only [List.cons_append, List.append_assoc, List.nil_append]
   rw [runBytes]
-  simp only [step, if_true]
+  simp only [step, if_true, Bool.false_eq_true, if_false]
   have hv := atoi_natToDec args.length hcount
   have hl := natToDec_length args.length hcount
   rw [numLine_s1 (natToDec args.length) (natToDec_all_digit _) [] (by simp; omega) (args.length : Int) (by simpa using hv)]
-  have := bulksRun args hne hlen [] ⟨some 10, .entry⟩ acc tail
+  have := bulksRun args hne hlen false 0 [] ⟨some 10, .entry⟩ acc tail
   simpa using this
 
 end Slock.Text
